@@ -1,10 +1,212 @@
 import SV.Driver.Util
-/- svdriver_c13: line protocol for the C13 model (stub until the model is built). -/
-namespace SV.Driver.C13
+import SV.Model.Task
+/-
+svdriver_c13: TRACE ACCEPTOR for the C13 model (task/task.go BackgroundTaskManager).
 
-def step (s : Unit) : List String → Unit × String
-  | _ => (s, "bad-op")
+Each input line is one event observed on the real manager (hook `VerifTrace`, plus two events the
+harness logs itself: `init`, `prio.done`, `end`).  The driver checks that the event is an enabled
+transition of `SV.Task.step` in the current model state and that the invariants `WF` and `Safe`
+hold in the new state.  Output: `ok` or `reject <reason>`.
+
+  init <cap> <n>          new scenario: manager of capacity cap, n invocations (ids 0..n-1)
+  prio.begin <v>          doPrio; v = counter read inside the critical section
+  prio.done               donePrio (logged by the harness just before DonePrioritizedTask)
+  prio.silence_end        the decrement is imminent (hook fires BEFORE the atomic add)
+  bg.pass_wait <i>        passWait            bg.acquired <i>      acquire
+  bg.decide <i> <v>       decideStart (v = 0) / decideBackoff (v > 0); v = `tasks` read under the lock
+  body.start <i>          (no model step: the body goroutine reached `do`)
+  body.end <i>            bodyReturns
+  bg.cancel <i>           observeNotify       bg.cancel_done <i>   observeDoneAfterCancel
+  bg.done <i>             observeDone         bg.release <i>       release
+  bg.return <i>           ret
+  end                     scenario over: every invocation returned, counter back to 0, all slots free
+
+What the recorded order guarantees, and what the acceptor therefore demands:
+* `prio.begin` and `bg.decide` are logged while `prioritizedTaskStartNotifyMu` is held: they are
+  totally ordered as in reality and the number of `prio.begin` before a `bg.decide` is exactly the
+  epoch of the channel that decide read.
+* `prio.silence_end` is logged BEFORE the decrement, so the real counter lies between
+  `prio - pend` and `prio` (`pend` = logged silence ends whose `silenceElapsed` the model has not
+  taken yet).  The values `v` carried by `bg.decide` / `prio.begin` are real reads of the counter:
+  the acceptor demands `prio - pend ≤ v ≤ prio` and then takes `prio - v` `silenceElapsed` steps
+  (this resolves where the decrements really happened).
+* `bg.pass_wait` is logged after the read of the counter, so a `prio.begin` may slip in between:
+  the acceptor demands only that the lower bound `prio - pend` was 0 at some trace position since
+  the invocation (re-)entered the wait loop, and then takes `forcePass` (= `passWait` moved back to
+  its linearisation point; `SV.Task.forcePass_comm`, `forcePass_eq_passWait`).  This is a necessary
+  condition only.
+* all other events are logged by the goroutine that performs the step, before any step that
+  depends on it can be logged (`bg.release` before the semaphore release, `body.end` before
+  `close(done)`, `prio.begin` before `close(ch)`), so their guards must hold in trace order.
+-/
+namespace SV.Driver.C13
+open SV.Driver SV.Task
+
+structure St where
+  active : Bool := false
+  failed : Bool := false
+  m : State := init 0 0
+  pend : Nat := 0
+  sawZero : List Bool := []
+  begun : List Bool := []
+
+def pcName : PC → String
+  | .waitZero => "waitZero" | .passed => "passed" | .haveSem => "haveSem" | .backoff => "backoff"
+  | .running e => s!"running@{e}" | .cancelling => "cancelling" | .cancelDone => "cancelDone"
+  | .doneOk => "doneOk" | .finished => "finished" | .returned => "returned"
+
+def describe (m : State) (i : Nat) : String :=
+  let inv := match m.invs[i]? with
+    | some v => s!"pc={pcName v.pc} cur={v.cur} orphans={v.orphans}"
+    | none => "unknown-invocation"
+  s!"{inv} prio={m.prio} silent={m.silent} epoch={m.epoch} semFree={m.semFree}/{m.cap}"
+
+def lo (s : St) : Nat := s.m.prio - s.pend
+
+def fail (s : St) (why : String) : St × String := ({ s with failed := true }, s!"reject {why}")
+
+/-- Accept the new model state if the invariants hold in it. -/
+def commit (s : St) (m' : State) : St × String :=
+  if ¬ decide (WF m') then fail s s!"invariant WF broken: prio={m'.prio} silent={m'.silent} semFree={m'.semFree} holders={holders m'} cap={m'.cap}"
+  else if ¬ decide (Safe m') then fail s s!"invariant Safe broken: alive={aliveTotal m'} cap={m'.cap}"
+  else ({ s with m := m' }, "ok")
+
+def act (s : St) (ev : String) (i : Nat) (a : Act) : St × String :=
+  match step s.m (.inv i a) with
+  | some m' => commit s m'
+  | none => fail s s!"{ev} {i}: not enabled ({describe s.m i})"
+
+/-- Take `k` `silenceElapsed` steps. -/
+def elapse : Nat → State → Option State
+  | 0, m => some m
+  | k + 1, m => (step m .silenceElapsed).bind (elapse k)
+
+/-- Reconcile the model counter with a real read `v` of `prioritizedTasks`. -/
+def sync (s : St) (ev : String) (v : Nat) : Except String St :=
+  if v > s.m.prio then
+    .error s!"{ev}: counter read {v} but at most {s.m.prio} prioritized tasks can be pending"
+  else if s.m.prio - v > s.pend then
+    .error s!"{ev}: counter read {v} but only {s.pend} of {s.m.prio} pending tasks had their silence period over"
+  else
+    match elapse (s.m.prio - v) s.m with
+    | some m' => .ok { s with m := m', pend := s.pend - (s.m.prio - v) }
+    | none => .error s!"{ev}: model cannot take {s.m.prio - v} silenceElapsed steps (silent={s.m.silent})"
+
+def setAt (l : List Bool) (i : Nat) (b : Bool) : List Bool := l.set i b
+
+def step (s : St) : List String → St × String
+  | ["init", cap, n] =>
+    match parseNat? cap, parseNat? n with
+    | some cap, some n =>
+      ({ active := true, failed := false, m := init cap n, pend := 0,
+         sawZero := List.replicate n true, begun := List.replicate n false }, "ok")
+    | _, _ => (s, "bad-op")
+  | ws =>
+    if ¬ s.active then (s, "bad-op")
+    else if s.failed then (s, "reject (scenario already rejected)")
+    else
+    match ws with
+    | ["prio.begin", v] =>
+      match parseNat? v with
+      | none => (s, "bad-op")
+      | some v =>
+        match SV.Task.step s.m .doPrio with
+        | none => fail s "prio.begin: not enabled"
+        | some m1 =>
+          match sync { s with m := m1 } "prio.begin" v with
+          | .error e => fail s e
+          | .ok s2 => commit s2 s2.m
+    | ["prio.done"] =>
+      match SV.Task.step s.m .donePrio with
+      | some m' => commit s m'
+      | none => fail s s!"prio.done: no prioritized task in progress (prio={s.m.prio} silent={s.m.silent})"
+    | ["prio.silence_end"] =>
+      if s.pend < s.m.silent then
+        let s' := { s with pend := s.pend + 1 }
+        let s' := if lo s' = 0 then { s' with sawZero := s'.sawZero.map fun _ => true } else s'
+        (s', "ok")
+      else fail s s!"prio.silence_end: no task inside its silence period (silent={s.m.silent} pending={s.pend})"
+    | ["bg.pass_wait", i] =>
+      match parseNat? i with
+      | none => (s, "bad-op")
+      | some i =>
+        if s.sawZero.getD i false then
+          match forcePass s.m i with
+          | some m' => commit s m'
+          | none => fail s s!"bg.pass_wait {i}: not enabled ({describe s.m i})"
+        else fail s s!"bg.pass_wait {i}: prioritizedTasks cannot have been 0 since the invocation started waiting ({describe s.m i} pending={s.pend})"
+    | ["bg.acquired", i] =>
+      match parseNat? i with
+      | none => (s, "bad-op")
+      | some i => act s "bg.acquired" i .acquire
+    | ["bg.decide", i, v] =>
+      match parseNat? i, parseNat? v with
+      | some i, some v =>
+        match sync s s!"bg.decide {i}" v with
+        | .error e => fail s e
+        | .ok s2 =>
+          let s2 := { s2 with begun := setAt s2.begun i false }
+          act s2 "bg.decide" i (if v = 0 then .decideStart else .decideBackoff)
+      | _, _ => (s, "bad-op")
+    | ["body.start", i] =>
+      match parseNat? i with
+      | none => (s, "bad-op")
+      | some i =>
+        match s.m.invs[i]? with
+        | some v =>
+          let pcOk := match v.pc with
+            | .running _ => true
+            | .cancelling => true
+            | _ => false
+          if pcOk && v.cur && !(s.begun.getD i true) then ({ s with begun := setAt s.begun i true }, "ok")
+          else fail s s!"body.start {i}: no freshly started body ({describe s.m i})"
+        | none => fail s s!"body.start {i}: unknown invocation"
+    | ["body.end", i] =>
+      match parseNat? i with
+      | none => (s, "bad-op")
+      | some i =>
+        if s.begun.getD i false then act s "body.end" i .bodyReturns
+        else fail s s!"body.end {i}: body never started ({describe s.m i})"
+    | ["bg.cancel", i] =>
+      match parseNat? i with
+      | none => (s, "bad-op")
+      | some i => act s "bg.cancel" i .observeNotify
+    | ["bg.cancel_done", i] =>
+      match parseNat? i with
+      | none => (s, "bad-op")
+      | some i => act s "bg.cancel_done" i .observeDoneAfterCancel
+    | ["bg.done", i] =>
+      match parseNat? i with
+      | none => (s, "bad-op")
+      | some i => act s "bg.done" i .observeDone
+    | ["bg.release", i] =>
+      match parseNat? i with
+      | none => (s, "bad-op")
+      | some i =>
+        let (s', r) := act s "bg.release" i .release
+        if r = "ok" then
+          match s'.m.invs[i]? with
+          | some v =>
+            if v.pc = .waitZero then ({ s' with sawZero := setAt s'.sawZero i (lo s' = 0) }, r) else (s', r)
+          | none => (s', r)
+        else (s', r)
+    | ["bg.return", i] =>
+      match parseNat? i with
+      | none => (s, "bad-op")
+      | some i => act s "bg.return" i .ret
+    | ["end"] =>
+      match sync s "end" 0 with
+      | .error e => fail s e
+      | .ok s2 =>
+        if s2.m.silent ≠ 0 ∨ s2.pend ≠ 0 then
+          fail s s!"end: counter is 0 but {s2.m.silent} tasks are still inside their silence period"
+        else if ¬ (s2.m.invs.all fun v => v.pc = .returned) then
+          fail s "end: an invocation has not returned"
+        else if s2.m.semFree ≠ s2.m.cap then
+          fail s s!"end: {s2.m.cap - s2.m.semFree} semaphore slots still held"
+        else commit s2 s2.m
+    | _ => (s, "bad-op")
 
 end SV.Driver.C13
 
-def main : IO Unit := SV.Driver.loop SV.Driver.C13.step ()
+def main : IO Unit := SV.Driver.loop SV.Driver.C13.step {}
